@@ -1,16 +1,30 @@
 // c06scan: run-time observation for the scan half of C06 — a scan with every offline filesystem extractor leaves the
 // scanned tree, the working directory and TMPDIR exactly as they were.
 //
-// Each case builds a tree that places valid (copied from the repository's fixtures, never scanned in place), empty,
-// truncated or corrupt files at production paths, snapshots tree / cwd / TMPDIR (path, type, mode, size, link target,
-// SHA-256), scans through a DirFS scan root, snapshots again and prints the difference.
+// A case is a tree plus a route:
 //
-// Output: "scan <seed> <variants>\tstatus=<ok|failed|panic> ext=<n extractors> files=<n> pkgs=<n> diff=<-|items> tmp=<-|items> cwd=<-|items>"
+//	scan <route> <seed> <variants>       route r = real directory scan root (DirectFS), v = virtual FS (ScanRoot.Path == "")
+//
+// <variants> has one character per entry of the file table below: 0 valid (content copied from the repository's
+// fixtures, which are never scanned in place), 1 zero bytes, 2 truncated to half, 3 random bytes of the same length,
+// 4 eight random bytes flipped, 5 missing.  Files are written 0644, directories 0755, by the scanning user, so an
+// illegitimate write succeeds and shows.  TMPDIR and the working directory are fresh per scan.  The snapshot taken
+// before and after the scan records, for the scanned tree, the working directory and TMPDIR: the set of paths, and per
+// path type and full mode, and for files and links size, mtime (ns), link target and SHA-256.  Anything that differs
+// after Scan returns counts (also a left-over -wal/-shm/journal/lock file); files created and removed again do not
+// (which is why directory mtimes are left out).
+//
+// The stream: (a) for every extractor group that opens AUXILIARY files beside the one FileRequired accepted
+// (`groups`): primary valid x each auxiliary in {valid, zero, truncated, corrupt, missing}, and primary in {zero,
+// truncated, corrupt} x auxiliaries valid, on both routes; (b) -n random trees.
+//
+// Output: "<case>\tstatus=<ok|failed|panic> ext=<n> pkgs=<n> diff=<-|items> tmp=<-|items> cwd=<-|items> panic=<-|hex>"   items hex-encoded.
 package main
 
 import (
 	"context"
 	"crypto/sha256"
+	"database/sql"
 	"encoding/hex"
 	"fmt"
 	"io/fs"
@@ -18,6 +32,7 @@ import (
 	"os"
 	"path/filepath"
 	"sort"
+	"strconv"
 	"strings"
 
 	scalibr "github.com/google/osv-scalibr"
@@ -25,6 +40,7 @@ import (
 	scalibrfs "github.com/google/osv-scalibr/fs"
 	"github.com/google/osv-scalibr/log"
 	"github.com/google/osv-scalibr/plugin"
+	_ "github.com/mattn/go-sqlite3"
 
 	"verif/harness/hx"
 )
@@ -40,7 +56,8 @@ func (nopLogger) Info(...any)           {}
 func (nopLogger) Debugf(string, ...any) {}
 func (nopLogger) Debug(...any)          {}
 
-// production path -> fixture directory (below /repo/extractor/filesystem) and a name hint, or literal content
+// production path -> fixture directory (below <repo>/extractor/filesystem) and a name hint ("=name" exact), or literal
+// content; literal "#missing" = absent by default, "#wal-*" = generated SQLite database in WAL mode with a live -wal/-shm
 type spec struct {
 	path, dir, hint, literal string
 }
@@ -50,22 +67,33 @@ var specs = []spec{
 	{"var/lib/dpkg/status.d/foo", "os/dpkg/testdata/dpkg", "single", ""},
 	{"usr/lib/opkg/status", "os/dpkg/testdata/opkg", "", ""},
 	{"lib/apk/db/installed", "os/apk/testdata", "installed", ""},
-	{"var/lib/rpm/Packages", "os/rpm/testdata", "Packages", ""},
-	{"var/lib/rpm/Packages.db", "os/rpm/testdata", "Packages.db", ""},
-	{"usr/lib/sysimage/rpm/rpmdb.sqlite", "os/rpm/testdata", "rpmdb.sqlite", ""},
-	{"var/lib/rpm/rpmdb.sqlite", "os/rpm/testdata", "rpmdb.sqlite", ""},
+	{"usr/share/rpm/Packages", "os/rpm/testdata", "=Packages", ""},
+	{"usr/share/rpm/__db.001", "", "", "\x00\x00\x00\x00berkeley region file stand-in\n"},
+	{"usr/share/rpm/.dbenv.lock", "", "", ""},
+	{"usr/share/rpm/.rpm.lock", "", "", ""},
+	{"usr/share/rpm/Packages.db", "os/rpm/testdata", "=Packages.db", ""},
+	{"var/lib/rpm/rpmdb.sqlite", "os/rpm/testdata", "=rpmdb.sqlite", ""},
+	{"var/lib/rpm/rpmdb.sqlite-journal", "", "", "#missing"},
+	{"usr/lib/sysimage/rpm/rpmdb.sqlite", "", "", "#wal-db"},
+	{"usr/lib/sysimage/rpm/rpmdb.sqlite-wal", "", "", "#wal-wal"},
+	{"usr/lib/sysimage/rpm/rpmdb.sqlite-shm", "", "", "#wal-shm"},
 	{"var/lib/pacman/local/zlib-1.3-1/desc", "os/pacman/testdata", "valid", ""},
 	{"var/db/pkg/dev-libs/zlib-1.3/PF", "os/portage/testdata", "valid", ""},
 	{"snap/core/123/meta/snap.yaml", "os/snap/testdata", "single-arch", ""},
 	{"var/lib/flatpak/app/org.x.Y/current/active/export/share/metainfo/org.x.Y.metainfo.xml", "os/flatpak/testdata", "valid", ""},
 	{"etc/cos-package-info.json", "os/cos/testdata", "single", ""},
 	{"etc/os-release", "", "", "ID=debian\nVERSION_ID=\"12\"\n"},
-	{"var/lib/containerd/io.containerd.metadata.v1.bolt/meta.db", "containers/containerd/testdata", "metadata_linux_test.db", ""},
-	{"var/lib/containerd/io.containerd.grpc.v1.cri/containers/abc/status", "containers/containerd/testdata", "status", ""},
+	{"usr/lib/os-release", "", "", "ID=debian\nVERSION_ID=\"12\"\n"},
+	{"home/u/.config/google-chrome/Default/Extensions/aapbdbdomjkkjkaonfhkkikfgjllcleb/1.0_0/manifest.json", "", "", "{\"manifest_version\":3,\"name\":\"__MSG_name__\",\"version\":\"1.0\",\"default_locale\":\"en\",\"author\":{\"email\":\"a@b.c\"}}"},
+	{"home/u/.config/google-chrome/Default/Extensions/aapbdbdomjkkjkaonfhkkikfgjllcleb/1.0_0/_locales/en/message.json", "", "", "{\"name\":{\"message\":\"Ext\"}}"},
+	{"var/lib/containerd/io.containerd.metadata.v1.bolt/meta.db", "containers/containerd/testdata", "meta_linux_test_single.db", ""},
+	{"var/lib/containerd/io.containerd.snapshotter.v1.overlayfs/metadata.db", "containers/containerd/testdata", "metadata_linux_test.db", ""},
+	{"var/lib/containerd/io.containerd.grpc.v1.cri/containers/b47fb93b51d091e16ae145b8b1438e5c011fd68cd65305fcd42fd83a13da7a8c/status", "containers/containerd/testdata", "status", ""},
 	{"usr/lib/python3/dist-packages/x-1.0.dist-info/METADATA", "language/python/wheelegg/testdata", "distinfo_meta", ""},
 	{"usr/lib/python3/dist-packages/y-1.0.egg-info/PKG-INFO", "language/python/wheelegg/testdata", "pkginfo", ""},
 	{"usr/lib/python3/dist-packages/monotonic-1.6-py3.10.egg", "language/python/wheelegg/testdata", "monotonic-1.6", ""},
-	{"app/requirements.txt", "language/python/requirements/testdata", "", ""},
+	{"app/requirements.txt", "", "", "-r other-requirements.txt\nrequests==2.31.0\n"},
+	{"app/other-requirements.txt", "", "", "flask==3.0.0\n"},
 	{"app/poetry.lock", "language/python/poetrylock/testdata", "", ""},
 	{"app/Pipfile.lock", "language/python/pipfilelock/testdata", "", ""},
 	{"app/pdm.lock", "language/python/pdmlock/testdata", "", ""},
@@ -77,7 +105,8 @@ var specs = []spec{
 	{"app/gradle.lockfile", "language/java/gradlelockfile/testdata", "", ""},
 	{"app/gradle/verification-metadata.xml", "language/java/gradleverificationmetadataxml/testdata", "", ""},
 	{"usr/bin/gobin", "language/golang/gobinary/testdata", "linux-amd64", ""},
-	{"app/go.mod", "language/golang/gomod/testdata", "", ""},
+	{"app/go.mod", "language/golang/gomod/testdata", "=indirect-1.16.mod", ""},
+	{"app/go.sum", "language/golang/gomod/testdata", "=indirect-1.16.sum", ""},
 	{"app/HelloWorldApp.dll", "language/dotnet/dotnetpe/testdata", "HelloWorldApp.dll", ""},
 	{"app/Invalid.dll", "language/dotnet/dotnetpe/testdata", "Invalid.dll", ""},
 	{"app/packages.lock.json", "language/dotnet/packageslockjson/testdata", "", ""},
@@ -110,27 +139,59 @@ var specs = []spec{
 	{"var/www/wp-content/plugins/x/x.php", "misc/wordpress/plugins/testdata", "", ""},
 }
 
-const fixtures = "/repo/extractor/filesystem"
+
+// group: an extractor's primary file and the auxiliary files it opens (or that its database library looks for) itself
+type group struct {
+	name    string
+	primary string
+	aux     []string
+}
+
+var groups = []group{
+	{"containerd", "var/lib/containerd/io.containerd.metadata.v1.bolt/meta.db", []string{
+		"var/lib/containerd/io.containerd.snapshotter.v1.overlayfs/metadata.db",
+		"var/lib/containerd/io.containerd.grpc.v1.cri/containers/b47fb93b51d091e16ae145b8b1438e5c011fd68cd65305fcd42fd83a13da7a8c/status"}},
+	{"rpm-sqlite-wal", "usr/lib/sysimage/rpm/rpmdb.sqlite", []string{"usr/lib/sysimage/rpm/rpmdb.sqlite-wal", "usr/lib/sysimage/rpm/rpmdb.sqlite-shm", "etc/os-release"}},
+	{"rpm-sqlite-journal", "var/lib/rpm/rpmdb.sqlite", []string{"var/lib/rpm/rpmdb.sqlite-journal"}},
+	{"rpm-bdb", "usr/share/rpm/Packages", []string{"usr/share/rpm/__db.001", "usr/share/rpm/.dbenv.lock", "usr/share/rpm/.rpm.lock"}},
+	{"rpm-ndb", "usr/share/rpm/Packages.db", []string{"usr/share/rpm/.rpm.lock"}},
+	{"gomod", "app/go.mod", []string{"app/go.sum"}},
+	{"requirements", "app/requirements.txt", []string{"app/other-requirements.txt"}},
+	{"chrome-extension", "home/u/.config/google-chrome/Default/Extensions/aapbdbdomjkkjkaonfhkkikfgjllcleb/1.0_0/manifest.json",
+		[]string{"home/u/.config/google-chrome/Default/Extensions/aapbdbdomjkkjkaonfhkkikfgjllcleb/1.0_0/_locales/en/message.json"}},
+	{"os-release", "var/lib/dpkg/status", []string{"etc/os-release", "usr/lib/os-release"}},
+}
+
+func repoRoot() string {
+	if r := os.Getenv("VERIF_REPO"); r != "" {
+		return r
+	}
+	return "/repo"
+}
 
 func fixture(s spec) []byte {
 	if s.dir == "" {
 		return []byte(s.literal)
 	}
 	var best []byte
-	_ = filepath.WalkDir(filepath.Join(fixtures, s.dir), func(p string, d fs.DirEntry, err error) error {
+	_ = filepath.WalkDir(filepath.Join(repoRoot(), "extractor/filesystem", s.dir), func(p string, d fs.DirEntry, err error) error {
 		if err != nil || d.IsDir() || best != nil {
 			return nil
 		}
-		if s.hint != "" && !strings.Contains(filepath.Base(p), s.hint) {
+		b := filepath.Base(p)
+		if strings.HasPrefix(s.hint, "=") {
+			if b != s.hint[1:] {
+				return nil
+			}
+		} else if s.hint != "" && !strings.Contains(b, s.hint) {
 			return nil
 		}
 		fi, e := d.Info()
 		if e != nil || !fi.Mode().IsRegular() || fi.Size() > 4<<20 {
 			return nil
 		}
-		b, e := os.ReadFile(p)
-		if e == nil {
-			best = b
+		if c, e := os.ReadFile(p); e == nil {
+			best = c
 		}
 		return nil
 	})
@@ -138,6 +199,37 @@ func fixture(s spec) []byte {
 		best = []byte("fixture not found\n")
 	}
 	return best
+}
+
+// walTrio makes an SQLite database in WAL mode whose last transaction still sits in the -wal file (what a machine
+// snapshot taken while rpm runs, or after a crash, looks like), from a copy of the rpm fixture.
+func walTrio(base string, rpmdb []byte) (db, wal, shm []byte) {
+	dir := filepath.Join(base, "walgen")
+	must(os.MkdirAll(dir, 0o755))
+	defer os.RemoveAll(dir)
+	p := filepath.Join(dir, "x.sqlite")
+	must(os.WriteFile(p, rpmdb, 0o644))
+	h, err := sql.Open("sqlite3", "file:"+p+"?_journal_mode=WAL")
+	must(err)
+	h.SetMaxOpenConns(1)
+	for _, q := range []string{"PRAGMA wal_autocheckpoint=0", "CREATE TABLE IF NOT EXISTS verif_t(a)", "INSERT INTO verif_t VALUES (1)"} {
+		_, err = h.Exec(q)
+		must(err)
+	}
+	db, err = os.ReadFile(p)
+	must(err)
+	wal, err = os.ReadFile(p + "-wal")
+	must(err)
+	shm, err = os.ReadFile(p + "-shm")
+	must(err)
+	h.Close()
+	return
+}
+
+func must(err error) {
+	if err != nil {
+		panic(err)
+	}
 }
 
 func snapshot(root string) map[string]string {
@@ -156,13 +248,14 @@ func snapshot(root string) map[string]string {
 		switch {
 		case fi.Mode()&fs.ModeSymlink != 0:
 			t, _ := os.Readlink(p)
-			m[rel] = "l:" + t
+			m[rel] = fmt.Sprintf("l:%v:%d:%s", fi.Mode(), fi.ModTime().UnixNano(), t)
 		case fi.IsDir():
-			m[rel] = fmt.Sprintf("d:%o", fi.Mode().Perm())
+			// a directory's mtime moves when an entry is created and removed again, which by itself does not count
+			m[rel] = fmt.Sprintf("d:%v", fi.Mode())
 		default:
 			b, _ := os.ReadFile(p)
 			h := sha256.Sum256(b)
-			m[rel] = fmt.Sprintf("f:%o:%d:%s", fi.Mode().Perm(), fi.Size(), hex.EncodeToString(h[:8]))
+			m[rel] = fmt.Sprintf("f:%v:%d:%d:%s", fi.Mode(), fi.Size(), fi.ModTime().UnixNano(), hex.EncodeToString(h[:8]))
 		}
 		return nil
 	})
@@ -173,18 +266,102 @@ func diff(a, b map[string]string) string {
 	var out []string
 	for k, v := range a {
 		if w, ok := b[k]; !ok {
-			out = append(out, hx.Hex("-"+k))
+			out = append(out, hx.Hex("removed "+k))
 		} else if w != v {
-			out = append(out, hx.Hex("~"+k+" "+v+" -> "+w))
+			out = append(out, hx.Hex("changed "+k+" "+v+" -> "+w))
 		}
 	}
 	for k := range b {
 		if _, ok := a[k]; !ok {
-			out = append(out, hx.Hex("+"+k+" "+b[k]))
+			out = append(out, hx.Hex("created "+k+" "+b[k]))
 		}
 	}
 	sort.Strings(out)
 	return hx.Join(out, ",")
+}
+
+var contents [][]byte
+var defaults []byte
+var base string
+
+func index(path string) int {
+	for i, s := range specs {
+		if s.path == path {
+			return i
+		}
+	}
+	panic("no such file in the table: " + path)
+}
+
+func runCase(route byte, seed int64, variants string, id int) string {
+	if len(variants) != len(specs) {
+		return "bad-case"
+	}
+	cr := rand.New(rand.NewSource(seed))
+	root := filepath.Join(base, fmt.Sprintf("s%d", id))
+	tree, tmp, cwd := filepath.Join(root, "tree"), filepath.Join(root, "tmp"), filepath.Join(root, "cwd")
+	for _, d := range []string{tree, tmp, cwd} {
+		must(os.MkdirAll(d, 0o755))
+	}
+	defer os.RemoveAll(root)
+	for k, s := range specs {
+		b := contents[k]
+		switch variants[k] {
+		case '0':
+		case '1':
+			b = nil
+		case '2':
+			b = b[:len(b)/2]
+		case '3':
+			c := make([]byte, len(b))
+			cr.Read(c)
+			b = c
+		case '4':
+			c := append([]byte{}, b...)
+			if len(c) > 8 {
+				at := cr.Intn(len(c) - 8)
+				cr.Read(c[at : at+8])
+			}
+			b = c
+		default:
+			continue // missing
+		}
+		p := filepath.Join(tree, filepath.FromSlash(s.path))
+		must(os.MkdirAll(filepath.Dir(p), 0o755))
+		must(os.WriteFile(p, b, 0o644))
+	}
+	orig, _ := os.Getwd()
+	os.Setenv("TMPDIR", tmp)
+	os.Setenv("SQLITE_TMPDIR", tmp)
+	must(os.Chdir(cwd))
+	defer os.Chdir(orig)
+	before, tb, cb := snapshot(tree), snapshot(tmp), snapshot(cwd)
+	caps := &plugin.Capabilities{OS: plugin.OSLinux, Network: plugin.NetworkOffline, DirectFS: route == 'r', RunningSystem: false}
+	roots := scalibrfs.RealFSScanRoots(tree)
+	if route == 'v' {
+		roots = []*scalibrfs.ScanRoot{{FS: scalibrfs.DirFS(tree), Path: ""}}
+	}
+	exs := list.FromCapabilities(caps)
+	status, pkgs, pmsg := "ok", 0, "-"
+	func() {
+		defer func() {
+			if e := recover(); e != nil {
+				status = "panic"
+				m := fmt.Sprint(e)
+				if len(m) > 120 {
+					m = m[:120]
+				}
+				pmsg = hx.Hex(m)
+			}
+		}()
+		res := scalibr.New().Scan(context.Background(), &scalibr.ScanConfig{FilesystemExtractors: exs, Capabilities: caps, ScanRoots: roots})
+		if res.Status == nil || res.Status.Status != plugin.ScanStatusSucceeded {
+			status = "failed"
+		}
+		pkgs = len(res.Inventory.Packages)
+	}()
+	after, ta, ca := snapshot(tree), snapshot(tmp), snapshot(cwd)
+	return fmt.Sprintf("status=%s ext=%d pkgs=%d diff=%s tmp=%s cwd=%s panic=%s", status, len(exs), pkgs, diff(before, after), diff(tb, ta), diff(cb, ca), pmsg)
 }
 
 func main() {
@@ -192,84 +369,100 @@ func main() {
 	log.SetLogger(nopLogger{})
 	out := hx.NewOut()
 	defer out.Flush()
-	base, err := os.MkdirTemp("", "c06scan-*")
-	if err != nil {
-		panic(err)
-	}
+	var err error
+	base, err = os.MkdirTemp("", "c06scan-*")
+	must(err)
 	defer os.RemoveAll(base)
-	contents := make([][]byte, len(specs))
+	contents = make([][]byte, len(specs))
+	defaults = make([]byte, len(specs))
 	for i, s := range specs {
+		defaults[i] = '0'
+		if strings.HasPrefix(s.literal, "#") {
+			if s.literal == "#missing" {
+				defaults[i] = '5'
+				contents[i] = []byte("\xd9\xd5\x05\xf9\x20\xa1\x63\xd7 stand-in for a rollback journal\n")
+			}
+			if s.literal == "#wal-wal" || s.literal == "#wal-shm" {
+				defaults[i] = '5' // absent in the pristine tree: the groups put them there
+			}
+			continue
+		}
 		contents[i] = fixture(s)
 	}
-	caps := &plugin.Capabilities{OS: plugin.OSLinux, Network: plugin.NetworkOffline, DirectFS: true, RunningSystem: false}
-	orig, _ := os.Getwd()
-	defer os.Chdir(orig)
+	db, wal, shm := walTrio(base, contents[index("var/lib/rpm/rpmdb.sqlite")])
+	contents[index("usr/lib/sysimage/rpm/rpmdb.sqlite")] = db
+	contents[index("usr/lib/sysimage/rpm/rpmdb.sqlite-wal")] = wal
+	contents[index("usr/lib/sysimage/rpm/rpmdb.sqlite-shm")] = shm
+
+	id := 0
+	emit := func(route byte, seed int64, variants string) {
+		id++
+		out.Emit(fmt.Sprintf("scan %c %d %s", route, seed, variants), runCase(route, seed, variants, id))
+	}
+	if o.Replay != "" {
+		for _, l := range hx.ReplayLines(o.Replay) {
+			t := strings.Split(l, " ")
+			if len(t) != 4 || t[0] != "scan" || len(t[1]) != 1 {
+				panic("bad case line " + l)
+			}
+			seed, err := strconv.ParseInt(t[2], 10, 64)
+			must(err)
+			emit(t[1][0], seed, t[3])
+		}
+		return
+	}
+	if o.Tier == "list" { // the file table and the groups, for the evidence
+		for i, s := range specs {
+			fmt.Printf("file %d %s default=%c\n", i, s.path, defaults[i])
+		}
+		for _, g := range groups {
+			fmt.Printf("group %s primary=%s aux=%s\n", g.name, g.primary, strings.Join(g.aux, ","))
+		}
+		return
+	}
+	with := func(changes map[int]byte) string {
+		v := append([]byte{}, defaults...)
+		for k, c := range changes {
+			v[k] = c
+		}
+		return string(v)
+	}
+	for _, route := range []byte{'r', 'v'} {
+		emit(route, 1, with(nil)) // the pristine tree
+		for _, g := range groups {
+			p := index(g.primary)
+			for _, a := range g.aux {
+				ai := index(a)
+				for _, c := range []byte{'0', '1', '2', '3', '5'} {
+					if c == defaults[ai] {
+						continue // that is the pristine tree
+					}
+					emit(route, int64(ai)*7+int64(c), with(map[int]byte{ai: c}))
+				}
+			}
+			for _, c := range []byte{'1', '2', '3'} {
+				ch := map[int]byte{p: c}
+				for _, a := range g.aux { // auxiliaries valid (also those absent by default)
+					ch[index(a)] = '0'
+				}
+				emit(route, int64(p)*11+int64(c), with(ch))
+			}
+			// every auxiliary present and valid next to a valid primary
+			ch := map[int]byte{}
+			for _, a := range g.aux {
+				ch[index(a)] = '0'
+			}
+			emit(route, 3, with(ch))
+		}
+	}
 	r := hx.Rng(o)
 	for i := 0; i < o.N; i++ {
 		seed := r.Int63()
 		cr := rand.New(rand.NewSource(seed))
-		root := filepath.Join(base, fmt.Sprintf("s%d", i))
-		tree, tmp, cwd := filepath.Join(root, "tree"), filepath.Join(root, "tmp"), filepath.Join(root, "cwd")
-		for _, d := range []string{tree, tmp, cwd} {
-			if err := os.MkdirAll(d, 0o755); err != nil {
-				panic(err)
-			}
+		v := make([]byte, len(specs))
+		for k := range v {
+			v[k] = "0000123455"[cr.Intn(10)]
 		}
-		var variants strings.Builder
-		for k, s := range specs {
-			b := contents[k]
-			v := 0
-			if i > 0 { // the first tree of a run is all valid
-				v = cr.Intn(5)
-			}
-			switch v {
-			case 1:
-				b = nil
-			case 2:
-				b = b[:len(b)/2]
-			case 3:
-				c := make([]byte, len(b))
-				cr.Read(c)
-				b = c
-			case 4: // one flipped region
-				c := append([]byte{}, b...)
-				if len(c) > 8 {
-					at := cr.Intn(len(c) - 8)
-					cr.Read(c[at : at+8])
-				}
-				b = c
-			}
-			variants.WriteByte(byte('0' + v))
-			p := filepath.Join(tree, filepath.FromSlash(s.path))
-			if err := os.MkdirAll(filepath.Dir(p), 0o755); err != nil {
-				panic(err)
-			}
-			if err := os.WriteFile(p, b, 0o644); err != nil {
-				panic(err)
-			}
-		}
-		os.Setenv("TMPDIR", tmp)
-		os.Chdir(cwd)
-		before, tb, cb := snapshot(tree), snapshot(tmp), snapshot(cwd)
-		exs := list.FromCapabilities(caps)
-		status, pkgs := "ok", 0
-		func() {
-			defer func() {
-				if e := recover(); e != nil {
-					status = "panic"
-				}
-			}()
-			res := scalibr.New().Scan(context.Background(), &scalibr.ScanConfig{
-				FilesystemExtractors: exs, Capabilities: caps, ScanRoots: scalibrfs.RealFSScanRoots(tree)})
-			if res.Status == nil || res.Status.Status != plugin.ScanStatusSucceeded {
-				status = "failed"
-			}
-			pkgs = len(res.Inventory.Packages)
-		}()
-		after, ta, ca := snapshot(tree), snapshot(tmp), snapshot(cwd)
-		os.Chdir(orig)
-		out.Emit(fmt.Sprintf("scan %d %s", seed, variants.String()),
-			fmt.Sprintf("status=%s ext=%d files=%d pkgs=%d diff=%s tmp=%s cwd=%s", status, len(exs), len(specs), pkgs, diff(before, after), diff(tb, ta), diff(cb, ca)))
-		os.RemoveAll(root)
+		emit("rv"[i%2], seed, string(v))
 	}
 }
